@@ -140,7 +140,7 @@ impl Prop for C03P {
         vec![Profile::Chk, Profile::Wrap]
     }
     fn units(&self, tier: Tier) -> Vec<String> {
-        let n = tier.pick(4, 6);
+        let n = tier.pick(4, 7);
         let mut v = Vec::new();
         for (c, r) in shapes(n) {
             for ch in chains_for(1) {
@@ -200,7 +200,7 @@ impl Prop for C03P {
             .into()
     }
     fn bound(&self, tier: Tier) -> String {
-        format!("parents up to {0}x{0} for nesting depth 1-2, up to {1} for depth 3; all argument tuples in (0..=dim+1)^4 plus huge values", tier.pick(4, 6), tier.pick("the 3x3 parent", "4x4"))
+        format!("parents up to {0}x{0} for nesting depth 1-2, up to {1} for depth 3; all argument tuples in (0..=dim+1)^4 plus huge values", tier.pick(4, 7), tier.pick("the 3x3 parent", "4x4"))
     }
 }
 
@@ -340,7 +340,7 @@ fn run_huge_zst(ctx: &mut Ctx) {
 }
 
 fn run_direct(which: &str, ctx: &mut Ctx) {
-    let n = ctx.tier.pick(4, 6);
+    let n = ctx.tier.pick(4, 7);
     let mut dims: Vec<(usize, usize)> = Vec::new();
     if which == "huge" {
         let hs: Vec<usize> = huge_fixed();
